@@ -76,15 +76,63 @@ static unsigned count_past(const struct lp_ctx *lp, unsigned upto)
 	return k;
 }
 
+/* ---- C08 on endless models: the run must return within a bounded amount of work once it may ---------------------------
+ * The model never dies out, so RootsimRun returns only because termination detection ends it.  Argument for the bound
+ * (DET mode; one thread at a time): let P be the first GVT value above tau_all = max_i tau_i (sequential time at which
+ * the predicate of LP i first holds) that worker 0 of rank 0 is told.  From the moment that value was computed every LP
+ * has executed, for good, the event that makes its predicate true, so no LP "becomes true" again afterwards and no
+ * thread's max_t (largest speculative termination time) grows any more: it is at most T_hi, the largest timestamp
+ * executed before P.  Every thread therefore votes when it is told a GVT above max(tau_all, T_hi) - or at or above
+ * the termination time - and a round needs all threads, so after one more round at most everybody has voted; the
+ * termination message then only needs to be delivered (in-process MPI: at most net_delay_max scheduler steps, then the
+ * next poll).  40 further qualifying rounds (plus, on several ranks, 4 x net_delay_max + 200000 steps) without returning
+ * is reported. */
+static int lv_on;
+static double lv_tau_all, lv_max_proc_t, lv_t_hi;
+static unsigned lv_rounds;
+static uint64_t lv_step0;
+enum { LV_ROUNDS = 40 };
+
+static void liveness_on_gvt(double g)
+{
+	int cond = RT.cfg.termination_time > 0 && g >= RT.cfg.termination_time;
+	if(g > lv_tau_all) {
+		if(lv_t_hi < 0)
+			lv_t_hi = lv_max_proc_t;
+		cond |= g > lv_t_hi;
+	}
+	if(!cond)
+		return;
+	if(!lv_rounds++)
+		lv_step0 = rsv_steps();
+	if(lv_rounds < LV_ROUNDS)
+		return;
+	if(RT.cfg.ranks > 1 && rsv_steps() - lv_step0 < 4ULL * RT.cfg.net_delay_max + 200000ULL)
+		return;
+	RT.res->cls[K_GVT_ROUNDS] = lv_rounds;
+	rt_fail("C08",
+	    "RootsimRun did not return: worker 0 has been told %u GVT values (latest %a) above the time %a at which every LP's predicate "
+	    "holds in the sequential execution and above every timestamp executed before (%a)%s, over %llu scheduler steps - all votes "
+	    "are in, yet the run goes on",
+	    lv_rounds, g, lv_tau_all, lv_t_hi, RT.cfg.termination_time > 0 ? " or at/above the termination time" : "",
+	    (unsigned long long)(rsv_steps() - lv_step0));
+	if(RT.res->verdict == RSV_FAIL)
+		rt_abort_case();
+}
+
 static void ev_cb(const struct rsv_rec *r)
 {
 	switch(r->kind) {
 		case RSV_EV_GVT:
 			if(r->t > cb_max_gvt)
 				cb_max_gvt = r->t; /* DET: one thread at a time; FREE: benign race between equal values of a round */
+			if(lv_on && r->rid == 0 && r->rank == 0)
+				liveness_on_gvt(r->t);
 			break;
 		case RSV_EV_PROCESS: {
 			uint64_t id = r->a;
+			if(lv_on && !r->b && r->m_t > lv_max_proc_t)
+				lv_max_proc_t = r->m_t;
 			if(id >= GM_MAXLP)
 				return;
 			struct dstack *s = &DS[id];
@@ -208,6 +256,15 @@ void rt_oracles_begin(void)
 {
 	memset(DS, 0, sizeof DS);
 	cb_max_gvt = 0;
+	lv_on = gm_spec.endless && RT.cfg.mode == RSV_MODE_DET && !RT.cfg.serial;
+	lv_tau_all = -1;
+	for(unsigned i = 0; i < gm_spec.n_lps; i++)
+		if(RT.ref.tau[i] > lv_tau_all)
+			lv_tau_all = RT.ref.tau[i];
+	lv_max_proc_t = 0;
+	lv_t_hi = -1;
+	lv_rounds = 0;
+	lv_step0 = 0;
 	if(!RT.cfg.serial) {
 		rsv_trace_enable(TRACE_CAP);
 		rsv_ev_callback = ev_cb;
